@@ -334,6 +334,94 @@ func c13(r *lp.Run) {
 		}
 	}
 
+	// ---- duration text against the Lean model of json.formatDuration and the documented reading of a text ----
+	{
+		encDur := func(d time.Duration) string {
+			return lp.Guard(func() string {
+				e := &jx.Encoder{}
+				ogenjson.EncodeDuration(e, d)
+				b := e.Bytes()
+				if len(b) < 2 || b[0] != '"' || b[len(b)-1] != '"' {
+					return "not-quoted:" + hex.EncodeToString(b)
+				}
+				return hex.EncodeToString(b[1 : len(b)-1])
+			})
+		}
+		var ds []int64
+		for _, b := range []int64{0, 1, 999, 1000, 1001, 999999, 1000000, 1000001, 999999999, 1000000000, 1000000001, 59999999999, 60000000000, 60000000001,
+			3599999999999, 3600000000000, 3600000000001, 1500000, 1050000000, 90000000000, 5400000000000, 100000000, 10, 100, 1010, 1100, 1000100,
+			math.MaxInt64, math.MaxInt64 - 1, math.MinInt64, math.MinInt64 + 1} {
+			ds = append(ds, b, -b)
+		}
+		for i := 0; i < r.N(6000, 100000); i++ {
+			mag := uint(rng.Intn(64))
+			v := int64(rng.Uint64() >> (63 - mag))
+			if rng.Chance(40) {
+				// round values: few significant digits
+				p := int64(1)
+				for k := rng.Intn(18); k > 0; k-- {
+					p *= 10
+				}
+				v = int64(rng.Intn(1000)) * p
+			}
+			if rng.Bool() {
+				v = -v
+			}
+			ds = append(ds, v)
+		}
+		termRe := regexp.MustCompile(`^([0-9]*)(?:\.([0-9]*))?(ns|us|µs|μs|ms|s|m|h)`)
+		maxFrac := map[string]int{"ns": 0, "us": 3, "µs": 3, "μs": 3, "ms": 6, "s": 9, "m": 9, "h": 9}
+		within := func(text string) bool {
+			// the domain on which the exact reading and time.ParseDuration are comparable: time.ParseDuration
+			// computes a fraction in float64 (`f * (unit/scale)`), which is exact as long as the fraction has no
+			// more digits than the unit has decimal places below it; integer parts of at most 15 digits
+			t := strings.TrimLeft(text, "+-")
+			for len(t) > 0 {
+				m := termRe.FindStringSubmatch(t)
+				if m == nil {
+					return true // not a duration text at all: both sides refuse it
+				}
+				if len(m[1]) > 15 || len(m[2]) > maxFrac[m[3]] {
+					return false
+				}
+				t = t[len(m[0]):]
+			}
+			return true
+		}
+		for _, v := range ds {
+			d := time.Duration(v)
+			text := encDur(d)
+			r.Case("durfmt", strconv.FormatInt(v, 10), text, "durfmt", true)
+			if got := hex.EncodeToString([]byte(conv.DurationToString(d))); got != text {
+				r.Fail(lp.PropFail{Property: "C13", What: "json.EncodeDuration and conv.DurationToString write different texts", Input: v, Observed: text, Expected: got})
+			}
+			plain := d.String()
+			for k := 0; k < 3; k++ {
+				m := []byte(plain)
+				if k > 0 && len(m) > 0 {
+					switch rng.Intn(3) {
+					case 0:
+						m[rng.Intn(len(m))] = lp.Pick(rng, []byte("0123456789.hmsnu-+ "))
+					case 1:
+						j := rng.Intn(len(m) + 1)
+						m = append(m[:j], append([]byte{lp.Pick(rng, []byte("0123456789.hmsnu"))}, m[j:]...)...)
+					default:
+						j := rng.Intn(len(m))
+						m = append(m[:j], m[j+1:]...)
+					}
+				}
+				if !within(string(m)) {
+					continue
+				}
+				out := "err"
+				if pv, err := time.ParseDuration(string(m)); err == nil {
+					out = "ok:" + strconv.FormatInt(int64(pv), 10)
+				}
+				r.Case("durval", hex.EncodeToString(m), out, "durval:"+out[:2], true)
+			}
+		}
+	}
+
 	// ---- UUID, IP, MAC, URL ----
 	ni := r.N(20000, 300000)
 	for i := 0; i < ni; i++ {
